@@ -21,7 +21,7 @@ RULE = (
     "CDS 5'/3' end, or missing the interval). Non-trivial = the window cuts the interval or misses it."
 )
 ASSUMPTIONS = [
-    "chunk parents are built by the library's own seq_chunk_to_parent (plus strand chunks)",
+    "chunk parents are built by the library's own seq_chunk_to_parent, on the plus and (features, non-coding and full-length-CDS transcripts) on the minus strand",
     "expected codons/sequences come from the reading-frame model and the designed genome",
     "chunk_relative_frames are compared only for one uninterrupted reading frame (the library documents that frameshift information is lost on chunks)",
 ]
@@ -43,11 +43,22 @@ def codon_pos(locs):
     return [tuple(M.P(lib.loc_blocks(c), lib.loc_strand(c))) for c in locs]
 
 
-def lift_back(loc, a):
-    """chromosome positions (5'->3') of a chunk-relative location on a plus-strand chunk starting at a"""
+def lift_back(loc, a, b=None, cs="+"):
+    """chromosome positions (5'->3') of a chunk-relative location on a chunk [a,b) placed on strand cs"""
     if type(loc) is _EmptyLocation or len(loc) == 0:
         return []
-    return [p + a for p in M.P(lib.loc_blocks(loc), lib.loc_strand(loc))]
+    if cs == "+":
+        return [p + a for p in M.P(lib.loc_blocks(loc), lib.loc_strand(loc))]
+    return [b - 1 - p for p in M.P(lib.loc_blocks(loc), lib.loc_strand(loc))]
+
+
+def mk_chunk(genome, a, b, cs):
+    if cs == "+":
+        return lib.chunk_parent(genome, a, b)
+    from inscripta.biocantor.io.parser import seq_chunk_to_parent
+
+    text = F.splice(genome, list(range(b - 1, a - 1, -1)), "-")
+    return seq_chunk_to_parent(text, "chrV", a, b, strand=lib.STRAND["-"])
 
 
 def cmp(res, name, case, o, exp, sig=None, **kw):
@@ -58,11 +69,11 @@ def cmp(res, name, case, o, exp, sig=None, **kw):
     return True
 
 
-def check_tx(res, N, exons, strand, cds, f0, a, b):
+def check_tx(res, N, exons, strand, cds, f0, a, b, cs="+"):
     genome = GENOME[:N]
     chrom = lib.chrom_parent(genome)
-    chunk = lib.chunk_parent(genome, a, b)
-    case = dict(kind="tx", N=N, exons=[list(x) for x in exons], strand=strand, cds=list(cds) if cds else None, f0=f0, a=a, b=b)
+    chunk = mk_chunk(genome, a, b, cs)
+    case = dict(kind="tx", N=N, exons=[list(x) for x in exons], strand=strand, cds=list(cds) if cds else None, f0=f0, a=a, b=b, cs=cs)
     kw = dict(sequence_name="chrV", transcript_id="t1", transcript_symbol="sym", qualifiers={"k": ["v2", "v1"]})
     if cds:
         cb = F.cds_blocks_for(exons, strand, cds[0], cds[1])
@@ -85,9 +96,9 @@ def check_tx(res, N, exons, strand, cds, f0, a, b):
     Ptx = F.tx_positions(exons, strand)
     inside = [p for p in Ptx if a <= p < b]
     cuts = len(inside) != len(Ptx)
-    res.state(("tx", exons, strand, cds, f0, a, b))
-    if cuts:
-        res.nontriv(("tx", exons, strand, cds, f0, a, b))
+    res.state(("tx", exons, strand, cds, f0, a, b, cs))
+    if cuts or cs == "-":
+        res.nontriv(("tx", exons, strand, cds, f0, a, b, cs))
     res.note("tx", "missed" if not inside else ("cut" if cuts else "whole"))
     # ---- chromosome-level answers identical between the twins ---------------------------------------------------
     for name, fn in (
@@ -114,18 +125,21 @@ def check_tx(res, N, exons, strand, cds, f0, a, b):
         res.deviation("chunk_relative_location", dict(op="chunk_relative_location", **case), o[1], inside, sig="chunk-location-raises")
         return
     CL = o[1]
-    if lift_back(CL, a) != inside or (inside and lib.loc_strand(CL) != strand):
-        res.deviation("chunk_relative_location", dict(op="chunk_relative_location", **case), lift_back(CL, a), inside, sig="chunk-location")
+    if lift_back(CL, a, b, cs) != inside or (inside and lib.loc_strand(CL) != M.strand_rel(strand, cs)):
+        res.deviation("chunk_relative_location", dict(op="chunk_relative_location", **case), lift_back(CL, a, b, cs), inside, sig="chunk-location")
         return
     if inside:
         o = lib.outcome(lambda: M.P(lib.loc_blocks(T1.lift_over_to_first_ancestor_of_type("chromosome")), strand))
         cmp(res, "lift_over_to_first_ancestor_of_type", case, o, inside, "chunk-liftback")
         cmp(res, "get_spliced_sequence", case, lib.outcome(lambda: str(T1.get_spliced_sequence())), F.splice(genome, inside, strand), "chunk-spliced-seq")
         lo, hi = min(inside), max(inside) + 1
-        cmp(res, "get_reference_sequence", case, lib.outcome(lambda: str(T1.get_reference_sequence())), genome[lo:hi], "chunk-reference-seq")
-        gen = F.splice(genome, list(range(lo, hi)) if strand == "+" else list(range(hi - 1, lo - 1, -1)), strand)
-        cmp(res, "get_genomic_sequence", case, lib.outcome(lambda: str(T1.get_genomic_sequence())), gen, "chunk-genomic-seq")
-        cmp(res, "chunk_relative_start_end", case, lib.outcome(lambda: (T1.chunk_relative_start, T1.chunk_relative_end)), (lo - a, hi - a), "chunk-start-end")
+        if cs == "+":
+            # ("positive strand" of a minus-strand chunk is not defined by any documentation: plus chunks only)
+            cmp(res, "get_reference_sequence", case, lib.outcome(lambda: str(T1.get_reference_sequence())), genome[lo:hi], "chunk-reference-seq")
+            gen = F.splice(genome, list(range(lo, hi)) if strand == "+" else list(range(hi - 1, lo - 1, -1)), strand)
+            cmp(res, "get_genomic_sequence", case, lib.outcome(lambda: str(T1.get_genomic_sequence())), gen, "chunk-genomic-seq")
+        ecs = (lo - a, hi - a) if cs == "+" else (b - hi, b - lo)
+        cmp(res, "chunk_relative_start_end", case, lib.outcome(lambda: (T1.chunk_relative_start, T1.chunk_relative_end)), ecs, "chunk-start-end")
     # ---- CDS ---------------------------------------------------------------------------------------------------
     if not cds:
         return
@@ -148,7 +162,7 @@ def check_tx(res, N, exons, strand, cds, f0, a, b):
     T2 = mk(chunk)  # fresh object: history independence is C10's business
     o = lib.outcome(lambda: codon_pos(T2.cds.chunk_relative_codon_locations))
     res.trans()
-    expc = [tuple(p - a for p in c) for c in inc]
+    expc = [tuple((p - a) if cs == "+" else (b - 1 - p) for p in c) for c in inc]
     if not inc:
         res.note("chunk-codons", "zero")
         if o[0] == "ok" and o[1]:
@@ -181,7 +195,7 @@ def check_tx(res, N, exons, strand, cds, f0, a, b):
         # length of the 5'-most stretch of the CDS inside the chunk that lies in one exon
         first_exon = next(e for e in F.exons_5to3(cb, strand) if any(a <= p < b for p in e))
         first_chunk_block_len = sum(1 for p in first_exon if a <= p < b)
-    if cds_inside:
+    if cds_inside and cs == "+":
         o = lib.outcome(lambda: ([f.value for f in T1.cds.chunk_relative_frames], lib.loc_blocks(T1.cds.chunk_relative_location)))
         res.trans()
         if o[0] != "ok":
@@ -205,10 +219,10 @@ def check_tx(res, N, exons, strand, cds, f0, a, b):
         res.note("chunk-codons", "cds-sliced-out")
 
 
-def check_feature(res, N, exons, strand, a, b):
+def check_feature(res, N, exons, strand, a, b, cs="+"):
     genome = GENOME[:N]
-    chrom, chunk = lib.chrom_parent(genome), lib.chunk_parent(genome, a, b)
-    case = dict(kind="feat", N=N, exons=[list(x) for x in exons], strand=strand, a=a, b=b)
+    chrom, chunk = lib.chrom_parent(genome), mk_chunk(genome, a, b, cs)
+    case = dict(kind="feat", N=N, exons=[list(x) for x in exons], strand=strand, a=a, b=b, cs=cs)
     kw = dict(sequence_name="chrV", feature_name="f", feature_types=["x", "a"], qualifiers={"q": ["2", "1"]})
     F0 = lib.mk_feat(exons, strand, chrom, **kw)
     o = lib.outcome(lib.mk_feat, exons, strand, chunk, **kw)
@@ -219,15 +233,15 @@ def check_feature(res, N, exons, strand, a, b):
     F1 = o[1]
     Pm = M.P(exons, strand)
     inside = [p for p in Pm if a <= p < b]
-    res.state(("feat", exons, strand, a, b))
-    if len(inside) != len(Pm):
-        res.nontriv(("feat", exons, strand, a, b))
+    res.state(("feat", exons, strand, a, b, cs))
+    if len(inside) != len(Pm) or cs == "-":
+        res.nontriv(("feat", exons, strand, a, b, cs))
     for name, fn in (("to_dict", lambda t: t.to_dict()), ("guid", lambda t: str(t.guid)), ("blocks", lambda t: [(x.start, x.end) for x in t.blocks]), ("strand", lambda t: t.strand.name)):
         o0, o1 = lib.outcome(fn, F0), lib.outcome(fn, F1)
         res.trans()
         if o0[0] != "ok" or o1[0] != "ok" or o0[1] != o1[1]:
             res.deviation(name, dict(op=name, **case), o1[1], o0[1], sig="twin-" + name)
-    o = lib.outcome(lambda: lift_back(F1.chunk_relative_location, a))
+    o = lib.outcome(lambda: lift_back(F1.chunk_relative_location, a, b, cs))
     res.trans()
     if o[0] != "ok" or o[1] != inside:
         res.deviation("chunk_relative_location", dict(op="chunk_relative_location", **case), o[1], inside, sig="chunk-location")
@@ -312,9 +326,14 @@ def run_shard(shard):
                 placements = [None] + [(c0, c1) for c0 in range(ln) for c1 in range(c0 + 1, ln + 1)]
                 for a, b in worlds.windows(N):
                     check_feature(res, N, exons, strand, a, b)
+                    check_feature(res, N, exons, strand, a, b, "-")
                     for cds in placements:
                         for f0 in ((0, 1, 2) if cds else (0,)):
                             check_tx(res, N, exons, strand, cds, f0, a, b)
+                    # minus-strand chunks (seq_chunk_to_parent(strand=MINUS)): non-coding and full-length CDS, all start frames
+                    check_tx(res, N, exons, strand, None, 0, a, b, "-")
+                    for f0 in (0, 1, 2):
+                        check_tx(res, N, exons, strand, (0, ln), f0, a, b, "-")
         res.sample({"exons": [[1, 4], [5, 8]], "strand": "+", "cds": [1, 6], "f0": 1, "window": [2, 7]})
     else:
         N = w["Ng"]
@@ -334,9 +353,9 @@ def replay(case):
     res = ShardResult()
     ex = tuple(tuple(x) for x in case["exons"])
     if case["kind"] == "tx":
-        check_tx(res, case["N"], ex, case["strand"], tuple(case["cds"]) if case["cds"] else None, case["f0"], case["a"], case["b"])
+        check_tx(res, case["N"], ex, case["strand"], tuple(case["cds"]) if case["cds"] else None, case["f0"], case["a"], case["b"], case.get("cs", "+"))
     elif case["kind"] == "feat":
-        check_feature(res, case["N"], ex, case["strand"], case["a"], case["b"])
+        check_feature(res, case["N"], ex, case["strand"], case["a"], case["b"], case.get("cs", "+"))
     else:
         check_collections(res, case["N"], ex, case["strand"], case["a"], case["b"])
     devs = [d for d in res.deviations if d["case"].get("op") == case.get("op")]
